@@ -171,7 +171,7 @@ def local_consts(run: Run, mod, fi: FuncInfo) -> dict:
 def check_number_kind(run: Run) -> None:
     run.rule("R13.7", "the reader hands the validator a number for a single NUMBER token: in Parser.parse_value, after the multi-word sub-branch of the NUMBER branch, every return is `token.value` (not the lexeme / a string), so every numeral the NUMBER fragment derives is read with the kind TYPE[NUMBER] accepts", 1)
     pm = run.project.mod("core.parser")
-    fi = pm.func("Parser.parse_value")
+    fi = pm.func("Parser.parse_value")  # (`token` = the local bound from self.current(): octacheck.localnames)
     branch = None
     for n in walk_no_nested(fi.node):
         if isinstance(n, ast.If) and ast.unparse(n.test) == "token.type == TokenType.NUMBER":
